@@ -17,26 +17,31 @@ impl RoughPos {
         use EndArea as End;
         use StartArea::{Clipped, Found, Gap, TillEnd, Window};
 
+        // The two bounds can lie in the same section or the same gap, in
+        // which case the (rough) end position lies before the start position:
+        // there is then nothing to read, not a negative number of bytes.
+        let sub = u64::saturating_sub;
+
         let estimate_in_bytes =
             match (self.start_search_area.clone(), self.end_search_area.clone()) {
                 (Found(start) | Gap { stops: start }, End::Found(end)) => Estimate {
-                    max: end - start,
-                    min: end - start,
+                    max: sub(end.raw_offset(), start.raw_offset()),
+                    min: sub(end.raw_offset(), start.raw_offset()),
                 },
                 (Found(start) | Gap { stops: start }, End::Gap { start: end }) => {
                     Estimate {
-                        max: end.raw_offset() - start.raw_offset(),
-                        min: end.raw_offset() - start.raw_offset(),
+                        max: sub(end.raw_offset(), start.raw_offset()),
+                        min: sub(end.raw_offset(), start.raw_offset()),
                     }
                 }
                 (Found(start) | Gap { stops: start }, End::TillEnd(end)) => Estimate {
-                    max: data_len - start.0,
-                    min: end - start,
+                    max: sub(data_len, start.raw_offset()),
+                    min: sub(end.raw_offset(), start.raw_offset()),
                 },
                 (Found(start) | Gap { stops: start }, End::Window(end_min, end_max)) => {
                     Estimate {
-                        max: end_max.raw_offset() - start.raw_offset(),
-                        min: end_min - start,
+                        max: sub(end_max.raw_offset(), start.raw_offset()),
+                        min: sub(end_min.raw_offset(), start.raw_offset()),
                     }
                 }
 
@@ -59,15 +64,18 @@ impl RoughPos {
                 },
 
                 (TillEnd(start), End::Found(end)) => Estimate {
-                    max: end - start,
+                    max: sub(end.raw_offset(), start.raw_offset()),
                     min: 1,
                 },
                 (TillEnd(start), End::Gap { start: end }) => Estimate {
-                    max: end.line_start(payload_size) - start,
+                    max: sub(
+                        end.line_start(payload_size).raw_offset(),
+                        start.raw_offset(),
+                    ),
                     min: 1,
                 },
                 (TillEnd(start), End::TillEnd(_)) => Estimate {
-                    max: data_len - start.raw_offset(),
+                    max: sub(data_len, start.raw_offset()),
                     min: 1,
                 },
                 (TillEnd(_), End::Window(_, _)) => unreachable!(
@@ -76,21 +84,30 @@ impl RoughPos {
             ),
 
                 (Window(start_min, start_max), End::Found(end)) => Estimate {
-                    max: end - start_min,
-                    min: end - start_max.line_start(payload_size),
+                    max: sub(end.raw_offset(), start_min.raw_offset()),
+                    min: sub(
+                        end.raw_offset(),
+                        start_max.line_start(payload_size).raw_offset(),
+                    ),
                 },
                 (Window(start_min, start_max), End::Gap { start: end }) => Estimate {
-                    max: end.raw_offset() - start_min.raw_offset(),
-                    min: end - start_max,
+                    max: sub(end.raw_offset(), start_min.raw_offset()),
+                    min: sub(end.raw_offset(), start_max.raw_offset()),
                 },
                 (Window(start_min, start_max), End::TillEnd(end)) => Estimate {
-                    max: data_len - start_min.raw_offset(),
-                    min: end - start_max.line_start(payload_size),
+                    max: sub(data_len, start_min.raw_offset()),
+                    min: sub(
+                        end.raw_offset(),
+                        start_max.line_start(payload_size).raw_offset(),
+                    ),
                 },
                 (Window(start_min, start_max), End::Window(end_min, end_max)) => {
                     Estimate {
-                        max: end_max.raw_offset() - start_min.raw_offset(),
-                        min: end_min - start_max.line_start(payload_size),
+                        max: sub(end_max.raw_offset(), start_min.raw_offset()),
+                        min: sub(
+                            end_min.raw_offset(),
+                            start_max.line_start(payload_size).raw_offset(),
+                        ),
                     }
                 }
             };
